@@ -95,3 +95,46 @@ func TestCheapConditionFalseNeverResolverError(t *testing.T) {
 		}
 	}
 }
+
+var recEmpty = ev.New("C09", "empty-member-regression",
+	"fixed cases: fromUsers lists \"\" alone / first / last / between real names, plain and inverted, requests from \"\", a listed name and an unlisted name, tcp and udp; "+
+		"fromServers listing an unnamed server; toDomains listing \"\"; oracle: plain list membership. Non-trivial: the request is anonymous or comes from the unnamed server")
+
+// TestEmptyStringMembers: the empty string is an ordinary member of the string-valued criteria.
+func TestEmptyStringMembers(t *testing.T) {
+	mk := func(servers []string) *genCase {
+		g := &genCase{w: &world{servers: servers, tcp: map[string]bool{"c0": true, "c1": true}, udp: map[string]bool{"c0": true, "c1": true},
+			dsets: map[string]*dsModel{}, psets: map[string]*psModel{}, defTCP: "client:c0", defUDP: "client:c0"},
+			files: map[string][]byte{}, labels: map[string]bool{}}
+		g.cfg.DefaultTCPClientName, g.cfg.DefaultUDPClientName = "c0", "c0"
+		return g
+	}
+	src := netip.MustParseAddrPort("192.0.2.1:40000")
+	for _, users := range [][]string{{""}, {"", "alice"}, {"alice", ""}, {"alice", "", "bob"}} {
+		for _, inv := range []bool{false, true} {
+			g := mk([]string{"s0"})
+			g.cfg.Routes = []router.RouteConfig{{Name: "by-user", Client: "c1", FromUsers: users, InvertFromUsers: inv}}
+			g.w.routes = []routeModel{{rc: &g.cfg.Routes[0]}}
+			var qs []request
+			for _, udp := range []bool{false, true} {
+				for _, u := range []string{"", "alice", "bob", "mallory"} {
+					qs = append(qs, request{UDP: udp, User: u, Src: src, IsIP: true, IP: netip.MustParseAddr("192.0.2.2"), Port: 443})
+				}
+			}
+			runCase(t, g, qs, recEmpty, func(q *request) bool { return q.User == "" })
+		}
+	}
+	for _, inv := range []bool{false, true} {
+		g := mk([]string{"s0", "", "s2"})
+		g.cfg.Routes = []router.RouteConfig{{Name: "by-server", Client: "c1", FromServers: []string{""}, InvertFromServers: inv},
+			{Name: "by-domain", Client: "reject", ToDomains: []string{"", "a.com"}}}
+		g.w.routes = []routeModel{{rc: &g.cfg.Routes[0]}, {rc: &g.cfg.Routes[1]}}
+		var qs []request
+		for srv := 0; srv < 3; srv++ {
+			qs = append(qs, request{Server: srv, User: "", Src: src, Domain: "a.com", Port: 443},
+				request{Server: srv, User: "", Src: src, Domain: "b.com", Port: 443},
+				request{Server: srv, UDP: true, User: "", Src: src, IsIP: true, IP: netip.MustParseAddr("0.0.0.0"), Port: 53})
+		}
+		runCase(t, g, qs, recEmpty, func(q *request) bool { return q.Server == 1 })
+	}
+}
